@@ -820,6 +820,54 @@ static std::string run_gencorpus(const CaseSpec &cs) {
   snprintf(name, sizeof name, "%s/s%08x_%016llx.drc", env("VERIF_CORPUS_OUT", "/tmp"),
            static_cast<unsigned>(std::hash<std::string>()(key) & 0xffffffffu),
            (unsigned long long)hash_tokens(to_tokens(cs)));
+  // Legacy layout of the kd-tree attribute data (bitstreams 2.0 .. 2.2): the current encoder cannot write it and testdata
+  // has no such stream, but the decoder still carries the code. A kd-tree point cloud whose attributes are all unsigned
+  // integers differs from the 2.2 layout only in the attribute payload (2.3: level, tree; 2.2: method 1, level, point
+  // count, tree), so such a stream is converted and - if the decoder accepts it with the same result - written as an
+  // additional seed.
+  if (er.geometry_type == 0 && er.method == 1 && er.bytes.size() > 20 && !(static_cast<uint8_t>(er.bytes[10]) & 0x80)) {
+    bool all_unsigned = !cs.g.atts.empty();
+    for (auto &a : cs.g.atts) all_unsigned &= a.dtype == draco::DT_UINT8 || a.dtype == draco::DT_UINT16 || a.dtype == draco::DT_UINT32;
+    size_t off = 15;  // header (11) + number of points (4)
+    if (all_unsigned && static_cast<uint8_t>(er.bytes[off]) == 1) {
+      ++off;
+      auto skip_varint = [&]() {
+        while (off < er.bytes.size() && (static_cast<uint8_t>(er.bytes[off]) & 0x80)) ++off;
+        ++off;
+      };
+      const size_t natt_off = off;
+      skip_varint();
+      if (off - natt_off == 1 && static_cast<size_t>(static_cast<uint8_t>(er.bytes[natt_off])) == cs.g.atts.size()) {
+        for (size_t i = 0; i < cs.g.atts.size(); ++i) {
+          off += 4;
+          skip_varint();
+        }
+        if (off + 1 < er.bytes.size()) {
+          std::vector<char> lb(er.bytes.begin(), er.bytes.begin() + off);
+          lb[5] = 2;
+          lb[6] = 2;
+          lb.push_back(1);               // kKdTreeIntegerEncoding
+          lb.push_back(er.bytes[off]);   // compression level
+          const uint32_t np = cs.g.npoints;
+          for (int k = 0; k < 4; ++k) lb.push_back(static_cast<char>((np >> (8 * k)) & 0xff));
+          lb.insert(lb.end(), er.bytes.begin() + off + 1, er.bytes.end());
+          DecodeResult lr = decode_bytes(lb);
+          if (lr.status.ok() && lr.geom && dr.geom && ordered_digest(*lr.geom, nullptr) == ordered_digest(*dr.geom, nullptr)) {
+            char lname[512];
+            snprintf(lname, sizeof lname, "%s/l%08x_%016llx.drc", env("VERIF_CORPUS_OUT", "/tmp"),
+                     static_cast<unsigned>(std::hash<std::string>()(key + ";legacy22") & 0xffffffffu), (unsigned long long)hash_tokens(to_tokens(cs)));
+            if (FILE *lf = fopen(lname, "wb")) {
+              fwrite(lb.data(), 1, lb.size(), lf);
+              fclose(lf);
+              count("corpus_streams_written_in_legacy_2.2_kd_tree_layout");
+            }
+          } else {
+            count("legacy_2.2_conversion_not_accepted");
+          }
+        }
+      }
+    }
+  }
   FILE *f = fopen(name, "wb");
   if (f) {
     fwrite(er.bytes.data(), 1, er.bytes.size(), f);
